@@ -45,7 +45,7 @@ PINNED = {
 
 
 OPEN_TITLES = {k: v[2] for k, v in PINNED.items()}
-FIXED_COMMITS = {"K-catch-pop": "790993c", "K-stale-error-ip-a": "4f459d5", "K-stale-error-ip-b": "4f459d5"}
+FIXED_COMMITS = {"K-catch-pop": "790993c", "K-stale-error-ip-a": "26bae81", "K-stale-error-ip-b": "26bae81"}
 
 # ---- other properties: (property, id, status, commit, title, scenario dict)
 from sim.props import c09, c15, c12, c01, c16
